@@ -127,7 +127,7 @@ thread_local! { pub static IN_GUARD: std::cell::Cell<bool> = const { std::cell::
 
 pub fn install_panic_hook() {
     std::panic::set_hook(Box::new(|info| {
-        if !IN_GUARD.with(|g| g.get()) {
+        if !IN_GUARD.with(|g| g.get()) || std::env::var("ORCA_HARNESS_TRACE").is_ok() {
             eprintln!("harness panic (outside a guarded call): {info}");
         }
     }));
